@@ -227,3 +227,23 @@ func WaitHandlersAtMost(n int, timeout time.Duration) bool {
 		}
 	}
 }
+
+// BackpressuredPeerLoops counts peer loops that hold an accepted stream and
+// wait for a free per-peer slot (runPeer blocked in its select).
+func BackpressuredPeerLoops() int {
+	n := 0
+	for _, g := range AllGoroutines() {
+		if !strings.HasPrefix(g.State, "select") {
+			continue
+		}
+		for _, f := range g.Funcs {
+			if watched.MatchString(f) {
+				if strings.HasSuffix(f, "syncer.(*Syncer).runPeer") {
+					n++
+				}
+				break
+			}
+		}
+	}
+	return n
+}
